@@ -328,11 +328,11 @@ class CInference(Inference):
         minimal correction subsets, which determines entailment decisions.
         """
         logger.debug("translate called")
+        # one impact variable per conditional, named by the conditional's key (the
+        # minimal correction subsets refer to conditionals by key as well)
         eta = {
             i: Symbol(f"eta_{i}", INT)
-            for i, _ in enumerate(
-                self.epistemic_state["belief_base"].conditionals, start=1
-            )
+            for i in self.epistemic_state["belief_base"].conditionals
         }
         # defeat= = checkTautologies(self.epistemic_state['belief_base'].conditionals)
         # if not defeat: return False
@@ -590,11 +590,15 @@ class CInference(Inference):
             # Both sides empty -> default to not entailed
             return [], (perf_counter_ns() / (1e6) - start_time)
 
-        vSum = makeSummation({0: vMin})
-        fSum = makeSummation({0: fMin})
-        mv, mf = freshVars(0)
-        vM = minima_encoding(mv, vSum[0])
-        fM = minima_encoding(mf, fSum[0])
+        # helper variables of the query must not clash with those of a conditional
+        query_index = (
+            max(self.epistemic_state["belief_base"].conditionals.keys(), default=0) + 1
+        )
+        vSum = makeSummation({query_index: vMin})
+        fSum = makeSummation({query_index: fMin})
+        mv, mf = freshVars(query_index)
+        vM = minima_encoding(mv, vSum[query_index])
+        fM = minima_encoding(mf, fSum[query_index])
         # print(f"vM {vM}")
         # print(f"fM {fM}")
         csp = vM + fM + [GE(mv, mf)]
